@@ -62,6 +62,26 @@ pub(super) fn head_paren(e: &Expr) -> bool {
     }
 }
 
+/// conservative: false only when the last token of the statement clearly cannot be continued by a call
+fn stmt_may_end_with_prefix(s: &Stmt) -> bool {
+    fn expr_may(e: &Expr) -> bool {
+        match e {
+            Expr::Nil | Expr::True | Expr::False | Expr::Number { .. } | Expr::Str { .. } | Expr::Table(_) | Expr::Function { .. } => false,
+            // parentheses the printer adds around an operand close the text with `)`
+            Expr::Binary(op, _, r) => need_right(*op, r) || expr_may(r),
+            Expr::Unary(_, a) => need_unary_operand(a) || expr_may(a),
+            _ => true,
+        }
+    }
+    match s {
+        Stmt::Do(_) | Stmt::While { .. } | Stmt::NumFor { .. } | Stmt::GenFor { .. } | Stmt::If { .. } | Stmt::Function { .. } | Stmt::LocalFunction { .. } | Stmt::Break | Stmt::Continue => false,
+        Stmt::Local { values, .. } => values.last().map_or(false, expr_may),
+        Stmt::Assign { values, .. } => values.last().map_or(true, expr_may),
+        Stmt::CompoundAssign { value, .. } => expr_may(value),
+        _ => true,
+    }
+}
+
 fn stmt_starts_with_paren(s: &Stmt) -> bool {
     match s {
         Stmt::Call(e) => head_paren(e),
@@ -95,7 +115,11 @@ impl<'t, 'd> Pr<'t, 'd> {
         for (i, s) in list.iter().enumerate() {
             let g = if self.last == 0 { G::First } else { G::Line };
             self.stmt(g, s);
-            let required = list.get(i + 1).map_or(false, stmt_starts_with_paren);
+            // `;` is needed in front of a statement starting with `(` only when this statement ends with
+            // something that could be called; in the clear cases (a literal, a table, a function, a
+            // block closed by `end`, ...) it is left to the layout liberties
+            // (the layout may have wrapped the last expression in redundant parentheses: the text then ends with `)`)
+            let required = list.get(i + 1).map_or(false, stmt_starts_with_paren) && (matches!(self.last, b')' | b']') || stmt_may_end_with_prefix(s));
             if required {
                 self.tok(G::Tight, ";");
             } else if self.opt(|o| o.semicolons) && self.tb(40) {
